@@ -45,7 +45,7 @@ ANCHORS = [
 FLOORS = {'*': {'history:cases': 300, 'history:probes-after-failure': 50, 'history:probes-after-context-request': 50, 'history:step-that-raised-out-of-dispatch': 50,
                 'leak:function': 6, 'leak:positional-context': 6, 'leak:view': 6, 'leak:base': 6, 'leak:jsonschema': 6,
                 'leak:pydantic': 6, 'leak:N=1000': 3, 'leak:hooks-that-raise': 6, 'leak:dispatch-raised-from-a-hook': 30, 'threads:runs': 4, 'threads:injected-yields': 1000,
-                'threads:distinct-lines': 20, 'threads:overlapping-dispatches': 100, 'threads:responses': 2000, 'threads:interpreter-state-samples': 2000, 'threads:cold-dispatcher-with-middlewares': 40, 'growth:runs': 8}}
+                'threads:distinct-lines': 20, 'threads:overlapping-dispatches': 100, 'threads:responses': 2000, 'threads:interpreter-state-samples': 2000, 'threads:cold-dispatcher-with-middlewares': 40, 'growth:runs': 8, 'cancel:runs': 12, 'cancel:dispatch-cancelled': 100}}
 
 
 # ---------------------------------------------------------------------------------------------------- history
@@ -62,6 +62,9 @@ PROBES = [
     docs.obj(id='p', method='rpcerr', params=[1234, 'm', {'d': [1]}]), docs.obj(id='p', method='boom', params=['ValueError', 'x']),
     docs.obj(id='p', method='js_checked', params=['bad']), docs.obj(id='p', method='typedctor', params=[5]),
     [docs.obj(id='p', method='ok', params=[]), docs.obj(id='q', method='raiselib', params=['InvalidRequestError'])],
+    # methods that work on their arguments in place: the values belong to ONE request, also when an equal text was seen before
+    docs.obj(id='p', method='mutate', params=[[3, 2, 1], {'k': 1}]),
+    [docs.obj(id='p', method='mutate', params={'lst': [1]}), docs.obj(id='q', method='mutate', params={'lst': [1]})],
 ]
 UNENCODABLE = [docs.obj(id=1, method='unenc', params=[w]) for w in ('set', 'object', 'bytes', 'nested')] + \
     [[docs.obj(id=1, method='ok', params=[1]), docs.obj(id=2, method='unenc')]]
@@ -294,6 +297,78 @@ def run_leak(ctx, style, validator_name, is_async, n, hooks=False):
             ctx.violation(f'object-count-grows-with-requests:{style}', f'leak:{style}:{validator_name}', cls, **wit)
             return
     ctx.ok(f'leak:{style}:{validator_name}:{kind}', cls, sample=wit)
+
+
+def run_cancel(ctx, n, concurrent, how):
+    """a dispatch that is cancelled from outside (a timeout, a client that went away) while batch members are suspended:
+    afterwards nothing of it may be held by the dispatcher"""
+    import asyncio
+    refs = {'contexts': [], 'sentinels': []}
+    disp = pjrpc.server.AsyncDispatcher(concurrent_batch=concurrent)
+    never = {}
+
+    async def park(ctx_, tag):
+        s = Sentinel()
+        refs['sentinels'].append(weakref.ref(s))
+        fut = asyncio.get_running_loop().create_future()
+        never[tag] = fut
+        try:
+            await fut
+        finally:
+            never.pop(tag, None)
+        return tag
+
+    async def quick(ctx_, tag):
+        return tag
+    disp.add(park, 'park', context='ctx_')
+    disp.add(quick, 'quick', context='ctx_')
+
+    async def one(i):
+        c = world.Context(i)
+        refs['contexts'].append(weakref.ref(c))
+        text = json.dumps([{'jsonrpc': '2.0', 'id': 1, 'method': 'quick', 'params': [f'{i}a']},
+                           {'jsonrpc': '2.0', 'id': 2, 'method': 'park', 'params': [f'{i}b']},
+                           {'jsonrpc': '2.0', 'id': 3, 'method': 'park', 'params': [f'{i}c']}] if i % 3 else
+                          {'jsonrpc': '2.0', 'id': 1, 'method': 'park', 'params': [f'{i}s']})
+        task = asyncio.ensure_future(disp.dispatch(text, context=c))
+        for _ in range(5):
+            await asyncio.sleep(0)
+        if how == 'cancel':
+            task.cancel()
+        else:
+            try:
+                await asyncio.wait_for(asyncio.shield(task), 0)
+            except asyncio.TimeoutError:
+                task.cancel()
+        try:
+            await task
+        except asyncio.CancelledError:
+            ctx.hit('cancel:dispatch-cancelled')
+        del c, task
+
+    async def driver():
+        for i in range(n):
+            await one(i)
+        for _ in range(3):
+            await asyncio.sleep(0)
+
+    try:
+        world.run(driver())
+    except Exception as e:
+        ctx.violation(f'cancelled-dispatch-raises:{type(e).__name__}', 'cancel', (n, concurrent, how), exception=e)
+        return
+    gc.collect()
+    alive = {k: sum(1 for r in v if r() is not None) for k, v in refs.items()}
+    cls = ('cancel', n, concurrent, how)
+    wit = dict(dispatches=n, concurrent_batch=concurrent, cancelled_by=how, still_alive=alive, created={k: len(v) for k, v in refs.items()},
+               methods_still_suspended=len(never))
+    ctx.hit('cancel:runs')
+    for what in ('contexts', 'sentinels'):
+        if alive[what]:
+            frac = 'all' if alive[what] == len(refs[what]) else 'some'
+            ctx.violation(f'{what}-still-referenced-after-cancelled-dispatch:{frac}', 'cancel', cls, **wit)
+            return
+    ctx.ok(f'cancel:{how}:{"concurrent" if concurrent else "sequential"}', cls, sample=wit)
 
 
 def run_growth(ctx, is_async, what):
@@ -574,6 +649,10 @@ def gen(ctx):
         crafted.append([a])
         for b in ctx_reqs:
             crafted.append([a, b])
+    # the very same request text several times before it is probed again
+    for p_ in PROBES:
+        crafted.append([p_])
+        crafted.append([p_, p_, p_])
     for u in UNENCODABLE:
         crafted.append([u])
         crafted.append([ctx_reqs[0], u, ctx_reqs[3]])
@@ -603,6 +682,10 @@ def gen(ctx):
     for is_async in (False, True):
         for what in ('unknown-methods', 'failing-known-methods', 'garbage', 'batches'):
             yield 'growth', dict(is_async=is_async, what=what)
+    for n in (1, 10, 200):
+        for concurrent in (True, False):
+            for how in ('cancel', 'timeout'):
+                yield 'cancel', dict(n=n, concurrent=concurrent, how=how)
 
 
-KINDS = {'history': run_history, 'leak': run_leak, 'threads': run_threads, 'growth': run_growth}
+KINDS = {'history': run_history, 'leak': run_leak, 'threads': run_threads, 'growth': run_growth, 'cancel': run_cancel}
